@@ -279,3 +279,26 @@ func TestD18_AddOffsetBitmapSplit(t *testing.T) {
 		t.Fatalf("AddOffset64 result cannot be serialized: %v", err)
 	}
 }
+
+// #15 C18: a corrupted bucket count must not make the 64-bit decoders allocate from it.
+func TestD15_Roaring64HugeCount(t *testing.T) {
+	b := roaring64.BitmapOf(1, 2, 1<<40)
+	buf, _ := b.ToBytes()
+	bad := append([]byte(nil), buf...)
+	bad[5] = 0x10 // bucket count becomes 2 + 2^44
+	defer func() {
+		if r := recover(); r != nil {
+			t.Fatalf("decoder panicked on a corrupted bucket count: %v", r)
+		}
+	}()
+	if _, err := roaring64.New().FromUnsafeBytes(bad); err == nil {
+		t.Fatalf("FromUnsafeBytes accepted a stream whose bucket count exceeds its content")
+	}
+	if _, err := roaring64.New().ReadFrom(bytes.NewReader(bad)); err == nil {
+		t.Fatalf("ReadFrom accepted a stream whose bucket count exceeds its content")
+	}
+	ok := roaring64.New()
+	if _, err := ok.ReadFrom(bytes.NewReader(buf)); err != nil || !ok.Equals(b) {
+		t.Fatalf("round trip broken: %v", err)
+	}
+}
